@@ -104,6 +104,10 @@ func effects(sp *refspec.Spec, pre, post *refspec.State) []string {
 			m["slashing-penalty-window"] = true
 		}
 	}
+	if m["ejection"] && (m["activation-queued"] || m["activation"]) {
+		// both halves of process_registry_updates write to the registry in one transition
+		m["ejection-and-activation-write-in-one-transition"] = true
+	}
 	if len(exitEpochs) >= 2 {
 		m["exit-queue-spans-epochs"] = true
 		if m["ejection"] {
@@ -363,7 +367,7 @@ func TestCheck(t *testing.T) {
 	if r.Replay != "" {
 		return
 	}
-	r.Mandatory("effect:upgrade-to-altair", "effect:upgrade-to-bellatrix", "effect:upgrade-to-capella", "effect:upgrade-to-deneb",
+	r.Mandatory("effect:ejection-and-activation-write-in-one-transition", "effect:upgrade-to-altair", "effect:upgrade-to-bellatrix", "effect:upgrade-to-capella", "effect:upgrade-to-deneb",
 		"effect:justified-changed", "effect:finalized-changed", "effect:leak-active", "effect:ejection", "effect:activation", "epoch-boundary-with-registry>1024", "effect:activation-from-long-queue-not-in-index-order", "effect:zero-effective-balance-inside-upward-margin",
 		"effect:effective-balance-changed", "effect:historical-append", "effect:eth1-reset", "effect:sync-rotation", "effect:inactivity-score-changed")
 	// ---- class tour: one directed template per mandatory deep class, free details still drawn
@@ -538,6 +542,29 @@ var tours = []struct {
 		part := rapid.IntRange(300, 800).Draw(rt, "part")
 		for s := 1; s <= 28; s++ {
 			cc.Actions = append(cc.Actions, sim.Action{Kind: "block", Slots: 1, Plan: fullBlock(rt, part)})
+		}
+		return cc
+	}},
+	{"ejection-and-eligibility-in-one-transition", func(rt *rapid.T) *sim.ChainCase {
+		// every genesis validator sits at the ejection balance (all are ejected at the first boundary) and a deposit
+		// queued in slot 1 wins the eth1 vote with the third block of the 4-slot voting period, so a new validator
+		// joins in epoch 0 and becomes eligible for activation in that very transition
+		fork := rapid.SampledFrom([][4]uint64{{farE, farE, farE, farE}, {1, farE, farE, farE}, {1, 1, 2, 2}, {1, 1, 1, 1}}).Draw(rt, "forks")
+		cc := &sim.ChainCase{Profile: "full"}
+		cc.Config = tourConfig(rt, fork, map[string]uint64{"EJECTION_BALANCE": 32_000_000_000,
+			"MIN_PER_EPOCH_CHURN_LIMIT": rapid.SampledFrom([]uint64{1, 2, 4}).Draw(rt, "churn"), "CHURN_LIMIT_QUOTIENT": 65536})
+		cc.Genesis = genesisN(rt, rapid.IntRange(8, 14).Draw(rt, "n"), true)
+		for s := 1; s <= 3; s++ {
+			p := fullBlock(rt, 1000)
+			if s == 1 {
+				for k := rapid.IntRange(1, 3).Draw(rt, "n_deposits"); k > 0; k-- {
+					p.Queue = append(p.Queue, sim.DepPlan{Kind: 0, Amount: rapid.SampledFrom([]int{0, 0, 2}).Draw(rt, "amount"), Eth1: true})
+				}
+			}
+			cc.Actions = append(cc.Actions, sim.Action{Kind: "block", Slots: 1, Plan: p})
+		}
+		for i := 0; i < 4; i++ {
+			cc.Actions = append(cc.Actions, sim.Action{Kind: "skip", Slots: rapid.IntRange(1, 5).Draw(rt, "skip")})
 		}
 		return cc
 	}},
